@@ -31,7 +31,26 @@
 //! | quantifier: inner classes whose outer class is absent | universes orphans, orphans-simple-name-clash, nest (every gap), same-simple-names, dollar-edges | |
 //! | quantifier: classes without target name | every universe has `None` rows; identity-names adds target = source (must stay distinct from "no target") | |
 //! | quantifier: parameters with comments; comments with blank lines, leading spaces, # | COMMENTS alphabet in every slot (members/*), inner-members, transitions (every pop of the indentation stack) | |
-//! | quantifier: packages at any depth | universes packages (0..3), deep-packages (8 and 10, a class named like a package directory), same-simple-names | |
+//! | quantifier: packages at any depth | universes packages (0..3), deep-packages (8 and 10, a class named like a package directory), same-simple-names; listed package-depths (16, 32, 64, 100; thorough 11..=40 … 200) | |
+//!
+//! Second extension pass (PATTERNS.md), what it adds to the table above:
+//!
+//! | pattern | decided in | space |
+//! |---|---|---|
+//! | 1 text is bytes | the same oracles (`run_case`) on the universes `slot-texts*`: every text slot (package, class, nested class ×2, field, method, parameter names on both sides, class names in descriptors, comment lines of every kind of entry) = k ASCII letters + one character of 1/2/2/3/3/4 UTF-8 bytes (x, é, NO-BREAK SPACE, €, EM SPACE, U+1F600) at the first / second / last position | k = 0..=140, accepting (in-domain set) and refusing (file-name collision, parameter without name: the writer quotes the names) |
+//! | 1 … in error paths of the reader | `env::refusal_case`: no panic, no hang (text that is not the writer's: nothing else demanded) | 2526 slot texts × 62 texts: unknown keyword at every level, wrong number of columns, indices that are no numbers, indentation without parent, entries stated twice, invalid names / descriptors, misplaced entries, text that is no UTF-8, nothing to read, remark / modifier / CRLF / no final line break |
+//! | 2 the environment answers differently (streams) | `env::stream_env_case`: `read_into` through every scripted reader gives the set; `write_all` / `write_one` through every scripted writer deliver the bytes they deliver into a Vec; a writer failing after any prefix, a slice one byte too small ⇒ an error | 5 listed sets (every kind of entry with text outside ASCII, chains of 9 and 128, two texts > 8 KiB of multi-byte lines; thorough > 64 KiB) × the alphabet of c20/io.rs (chunk sizes, BufReader / BufWriter capacities, one boundary at every byte offset, periodic boundaries, Interrupted) |
+//! | 2 … (directory) / 4 state that is already there | `env::dir_env_case`: an error is accepted, success must be followed by reading back the set; a file behind which nothing can be stored (symbolic link to /dev/full) ⇒ success is an error swallowed; files of other kinds next to the mapping files: no panic | every in-domain set of the universe packages + the 5 listed sets × (target directory and its parent missing; every file in turn a link to /dev/full; every file in turn a directory; every first package component in turn a file; README.md, x.mapping.bak, .mapping, notes.txt, an empty directory empty.mapping; a path that does not exist) |
+//! | 4 / 7 a directory that already holds files of the same names and sizes | `dir-overwrite-same-size`: other facts of the same length (last letter of every member target name and comment replaced) written over the files of another insertion order: reading gives what was written last | every in-domain set with a comment or a member target name, without file-name collision |
+//! | 4 / 7 what was read is written again | `stream:rewrite-differs`: `write_all` of the object `read_into` read equals the text read (same set ⇒ same bytes; not compared where a constructor is named `<init>`: the set read back is the same only by the proviso) | every in-domain set without file-name collision |
+//! | 3 / 9 odd-but-legal values | `run_case` | universes param-indices-large (256, 65535, 65536, 2^32−1, 2^32, usize::MAX), keyword-names (CLASS, FIELD, METHOD, ARG, COMMENT, ACC, ACCESS, ACC:x as parameter name, L, LL; as names on every kind of entry: the header remark of write_all states the target name), constructors (`<clinit>` named `<clinit>` keeps its name), outside-domain-names (ACC:… class targets, methods named `<init>`: no panic) |
+//! | 5 one name in two roles | `run_case` | universe name-roles (the source / target name of a nested class is the file name of an orphan; an inner name equal to its outer class's inner name and to one in another branch) |
+//! | 8 boundaries | `run_case`: file names of 253..=255 bytes must work, longer ones may be refused by the directory writer (NAME_MAX) but not by the stream; `env::beyond_case`: chains of 257, 258, 300, 1000 nested classes: refusal or round trip, no panic | listed file-name-lengths (64 … 1000 bytes, ASCII and three-byte characters, source- and target-named files), beyond-bound |
+//!
+//! Patterns 6 (order and placement) and 10 (masks per level) were covered before: every member is optional in the
+//! product universes (a method with parameters before / after one without, a commented entry before / after a bare one),
+//! siblings after branching children in nest / nest-wide / name-roles, 3–4 insertion orders; the reader has no masks,
+//! the modifier column is explored in keyword-names, outside-domain-names and the refusal space.
 
 use std::collections::{BTreeMap, BTreeSet};
 use std::path::{Path, PathBuf};
@@ -41,6 +60,14 @@ use quill::tree::mappings::Mappings;
 use quill::tree::names::Namespaces;
 use rayon::prelude::*;
 use vcore::{json, Ctx, Stats, Value};
+
+#[path = "c12/more.rs"]
+mod more;
+#[path = "c12/env.rs"]
+mod env;
+#[allow(dead_code)]
+#[path = "c20/io.rs"]
+mod io;
 
 const NS: [&str; 2] = ["official", "named"];
 
@@ -60,6 +87,15 @@ const COMMENTS: &[&str] = &[
 /// Comments outside the format (explored for "no panic" only).
 const ODD_COMMENTS: &[&str] = &["a\tb", "\tx", "x\r", "a\u{b}b", "a\u{c}b"];
 
+/// the white space of the format (what separates columns); everything else is text
+const FORMAT_WS: [char; 6] = [' ', '\t', '\n', '\u{b}', '\u{c}', '\r'];
+
+/// white space for Unicode, text for the format
+fn is_unicode_only_ws(c: char) -> bool {
+	c.is_whitespace() && !FORMAT_WS.contains(&c)
+}
+
+const KEY_UWS: &str = "name-at-line-end:trailing-unicode-white-space-trimmed";
 const KEY_ORPHAN: &str = "orphan-inner-class:outer-prefix-dropped";
 const KEY_COLLISION: &str = "file-name-collision:class-silently-dropped";
 
@@ -141,6 +177,55 @@ fn strip_docs(set: &MSet) -> MSet {
 	s
 }
 
+/// The same classes with other facts of the same length: the last character of every target name of a field, method
+/// and parameter and of every comment, if it is an ASCII letter or digit, is replaced by its successor (z → a, 9 → 0).
+/// Every file of the directory form keeps its name and its size. `None` if nothing can be changed.
+fn same_length_variant(set: &MSet) -> Option<MSet> {
+	fn bump(s: &mut String) -> bool {
+		let next = match s.chars().last() {
+			Some(c @ ('a'..='y' | 'A'..='Y' | '0'..='8')) => (c as u8 + 1) as char,
+			Some('z') => 'a',
+			Some('Z') => 'A',
+			Some('9') => '0',
+			_ => return false,
+		};
+		s.pop();
+		s.push(next);
+		true
+	}
+	let mut out = set.clone();
+	let mut changed = false;
+	let mut doc = |d: &mut Option<String>, changed: &mut bool| {
+		if let Some(d) = d {
+			*changed |= bump(d);
+		}
+	};
+	for c in out.classes.values_mut() {
+		doc(&mut c.doc, &mut changed);
+		for f in c.fields.values_mut() {
+			doc(&mut f.doc, &mut changed);
+			if let Some(t) = &mut f.names[1] {
+				changed |= bump(t);
+			}
+		}
+		for ((name, _), m) in c.methods.iter_mut() {
+			doc(&mut m.doc, &mut changed);
+			if let Some(t) = &mut m.names[1] {
+				if !name.starts_with('<') && !t.starts_with('<') {
+					changed |= bump(t);
+				}
+			}
+			for p in m.params.values_mut() {
+				doc(&mut p.doc, &mut changed);
+				if let Some(t) = &mut p.names[1] {
+					changed |= bump(t);
+				}
+			}
+		}
+	}
+	changed.then_some(out)
+}
+
 /// The target-side name a nested class's target has to extend: the class's own target name, or its
 /// source name when the class and all its present outer classes are unnamed; `None` where the
 /// statement leaves it open (an unnamed class inside a renamed one).
@@ -167,6 +252,8 @@ const EX_ROOT_NESTED_TARGET: &str = "non-nested source class with a nested-looki
 const EX_CTOR: &str = "constructor with a target name other than <init> (statement: 'constructors are treated as unnamed')";
 const EX_PARAM_SRC: &str = "parameter with a name in the first namespace (an ARG line has one name column only)";
 const EX_PARAM_UNNAMED: &str = "parameter without target name, with or without comment (an ARG line needs a name; a comment needs an ARG line to hang below)";
+const EX_ACC: &str = "class whose target name is written as a column starting with ACC: (the format reads such a column as a modifier, not as a name)";
+const EX_INIT_NAME: &str = "method other than a constructor with the target name <init> (the statement treats what is called <init> as unnamed and does not say which side decides)";
 const EX_COMMENT_WS: &str = "comment containing TAB, CR, VT or FF (the line tokeniser's separators; only space-separated text lines are expressible)";
 
 fn exclusions(set: &MSet) -> BTreeSet<&'static str> {
@@ -181,6 +268,9 @@ fn exclusions(set: &MSet) -> BTreeSet<&'static str> {
 	for (k, c) in &set.classes {
 		doc(&c.doc, &mut out);
 		if let Some(t) = &c.names[1] {
+			if t.starts_with("ACC:") || t.contains("$ACC:") {
+				out.insert(EX_ACC);
+			}
 			match split_inner(k) {
 				None => {
 					if t.contains('$') {
@@ -213,6 +303,9 @@ fn exclusions(set: &MSet) -> BTreeSet<&'static str> {
 			doc(&m.doc, &mut out);
 			if name == "<init>" && m.names[1].as_deref().is_some_and(|t| t != "<init>") {
 				out.insert(EX_CTOR);
+			}
+			if name != "<init>" && m.names[1].as_deref() == Some("<init>") {
+				out.insert(EX_INIT_NAME);
 			}
 			for p in m.params.values() {
 				doc(&p.doc, &mut out);
@@ -302,12 +395,17 @@ fn ref_read(text: &str) -> Result<Vec<RefClass>, String> {
 			}
 			continue;
 		}
-		let code = rest.split_once('#').map(|(c, _)| c).unwrap_or(rest).trim();
+		// (the separators of the format are SP HT LF VT FF CR; NO-BREAK SPACE, EM SPACE, … are text)
+		let code = rest.split_once('#').map(|(c, _)| c).unwrap_or(rest).trim_matches(FORMAT_WS);
 		if code.is_empty() {
 			continue;
 		}
-		let mut tok: Vec<&str> = code.split_whitespace().collect();
-		if tok.last().is_some_and(|t| t.starts_with("ACC:")) {
+		let mut tok: Vec<&str> = code.split(FORMAT_WS).collect();
+		if tok.iter().any(|t| t.is_empty()) {
+			return Err(format!("line {no}: an empty column"));
+		}
+		// (a modifier column exists on CLASS, FIELD and METHOD lines; the last column of an ARG line is the name)
+		if matches!(tok[0], "CLASS" | "FIELD" | "METHOD") && tok.last().is_some_and(|t| t.starts_with("ACC:")) {
 			tok.pop();
 		}
 		if indent > stack.len() {
@@ -504,13 +602,24 @@ fn real_write_ones(set: &MSet, o: Ins, names: &[&str]) -> Vec<Guarded<Result<Vec
 }
 
 fn real_read_stream(text: &[u8]) -> Guarded<ReadOut> {
+	real_read_stream_rewrite(text, false).map(|(r, _)| r)
+}
+
+/// `read_into`, and with `rewrite` also `write_all` of the object that was read (`None` if nothing was read)
+fn real_read_stream_rewrite(text: &[u8], rewrite: bool) -> Guarded<(ReadOut, Option<Result<Vec<u8>, String>>)> {
 	vcore::guard(|| {
 		let mut m: Mappings<2, ()> = Mappings::from_namespaces(NS).unwrap_or_else(|e| vcore::machinery_fail(&format!("{e}")));
 		match quill::enigma_file::read_into(text, &mut m) {
-			Err(e) => ReadOut::Refused(format!("{e:#}")),
-			Ok(()) => match mapmodel::from_quill(&m) {
-				Ok(s) => ReadOut::Set(s),
-				Err(k) => ReadOut::KeyBroken(k.0),
+			Err(e) => (ReadOut::Refused(format!("{e:#}")), None),
+			Ok(()) => {
+				let again = rewrite.then(|| {
+					let mut v = Vec::new();
+					quill::enigma_file::write_all(&m, &mut v).map(|_| v).map_err(|e| format!("{e:#}"))
+				});
+				match mapmodel::from_quill(&m) {
+					Ok(s) => (ReadOut::Set(s), again),
+					Err(k) => (ReadOut::KeyBroken(k.0), again),
+				}
 			},
 		}
 	})
@@ -638,6 +747,58 @@ struct Case<'a> {
 	/// trees whose roots would be stored under the same file name (target name, else source name)
 	colliding_roots: BTreeSet<String>,
 	orphan_name_clash: bool,
+	/// a name that is the last column of its line (class: target name, else source name; parameter: name) ends with a
+	/// character that is white space for Unicode only
+	uws_tail: bool,
+	/// … and the last piece of such a name consists of such characters only
+	uws_only_tail: bool,
+}
+
+/// (a name written as last column ends with Unicode-only white space, the last `/`- or `$`-piece of one is nothing else)
+fn uws_flags(set: &MSet) -> (bool, bool) {
+	let mut last_columns: Vec<&str> = Vec::new();
+	for (k, c) in &set.classes {
+		last_columns.push(c.names[1].as_deref().unwrap_or(k));
+		for m in c.methods.values() {
+			last_columns.extend(m.params.values().filter_map(|p| p.names[1].as_deref()));
+		}
+	}
+	let tail = last_columns.iter().any(|n| n.ends_with(is_unicode_only_ws));
+	let only = last_columns.iter().any(|n| n.rsplit(['/', '$']).next().is_some_and(|l| !l.is_empty() && l.chars().all(is_unicode_only_ws)));
+	(tail, only)
+}
+
+/// the set with every Unicode-only white space character taken out of every name; `None` if names meet
+fn without_uws(set: &MSet) -> Option<MSet> {
+	let f = |s: &str| -> String { s.chars().filter(|c| !is_unicode_only_ws(*c)).collect() };
+	let row = |r: &Row| -> Row { r.iter().map(|n| n.as_deref().map(f)).collect() };
+	let mut out = MSet::new(&NS);
+	for (k, c) in &set.classes {
+		let mut nc = MClass { names: row(&c.names), doc: c.doc.clone(), ..Default::default() };
+		for ((n, d), fl) in &c.fields {
+			if nc.fields.insert((f(n), f(d)), MField { names: row(&fl.names), doc: fl.doc.clone() }).is_some() {
+				return None;
+			}
+		}
+		for ((n, d), m) in &c.methods {
+			let params = m.params.iter().map(|(i, p)| (*i, MParam { names: row(&p.names), doc: p.doc.clone() })).collect();
+			if nc.methods.insert((f(n), f(d)), MMethod { names: row(&m.names), doc: m.doc.clone(), params }).is_some() {
+				return None;
+			}
+		}
+		if out.classes.insert(f(k), nc).is_some() {
+			return None;
+		}
+	}
+	Some(out)
+}
+
+impl<'a> Case<'a> {
+	/// a case without the two historical shapes (used for the parts of a set)
+	fn plain(ctx: &'a Ctx, label: &'a str, idx: u64, set: &'a MSet, expected: MSet) -> Case<'a> {
+		let (uws_tail, uws_only_tail) = uws_flags(&expected);
+		Case { ctx, label, idx, set, expected, orphan_members: BTreeMap::new(), colliding_roots: BTreeSet::new(), orphan_name_clash: false, uws_tail, uws_only_tail }
+	}
 }
 
 impl Case<'_> {
@@ -662,6 +823,15 @@ impl Case<'_> {
 		let exp = &self.expected;
 		if exp == actual {
 			return true;
+		}
+		if self.uws_tail {
+			if let (Some(e), Some(a)) = (without_uws(exp), without_uws(actual)) {
+				if e == a {
+					let what = mapmodel::first_difference(exp, actual).map(|(_, w)| w).unwrap_or_default();
+					self.diff(KEY_UWS, &format!("{site}: a name written as the last column of its line ends with a character that is white space for Unicode but not for the format, and came back without it: {what}"), extra);
+					return false;
+				}
+			}
 		}
 		let mut e2 = exp.clone();
 		let mut a2 = actual.clone();
@@ -695,7 +865,9 @@ impl Case<'_> {
 	}
 
 	fn refused(&self, site: &str, e: &str, extra: &str) {
-		if self.orphan_name_clash {
+		if self.uws_only_tail {
+			self.diff(KEY_UWS, &format!("{site}: a name written as the last column of its line ends in a piece made of characters that are white space for Unicode but not for the format; the text is refused: {e}"), extra);
+		} else if self.orphan_name_clash {
 			self.diff(KEY_ORPHAN, &format!("{site}: inner classes whose outer class is absent were stated by their simple names, which clash: {e}"), extra);
 		} else {
 			self.diff(&format!("{site}:read-refused"), &format!("{site}: reading back the written text failed: {e}"), extra);
@@ -766,7 +938,7 @@ fn run_case(ctx: &Ctx, label: &str, idx: u64, set: &MSet, scratch: &Path, st: &m
 		for e in &ex {
 			st.outcome(&format!("outside: {e}"));
 		}
-		let case = Case { ctx, label, idx, set, expected: set.clone(), orphan_members: BTreeMap::new(), colliding_roots: BTreeSet::new(), orphan_name_clash: false };
+		let case = Case::plain(ctx, label, idx, set, set.clone());
 		for o in &ords {
 			match real_write_stream(set, *o) {
 				Err(p) => case.panic("outside-domain stream write", &p),
@@ -822,7 +994,11 @@ fn run_case(ctx: &Ctx, label: &str, idx: u64, set: &MSet, scratch: &Path, st: &m
 		let mut seen = BTreeSet::new();
 		orphan_members.values().any(|d| expected.classes.contains_key(d) || !seen.insert(d.clone()))
 	};
-	let case = Case { ctx, label, idx, set, expected, orphan_members, colliding_roots, orphan_name_clash };
+	let (uws_tail, uws_only_tail) = uws_flags(&expected);
+	let case = Case { ctx, label, idx, set, expected, orphan_members, colliding_roots, orphan_name_clash, uws_tail, uws_only_tail };
+	if uws_tail {
+		st.outcome("sets with a name at the end of its line that ends with Unicode-only white space");
+	}
 	let exp = &case.expected;
 
 	// what this set exercises
@@ -903,6 +1079,35 @@ fn run_case(ctx: &Ctx, label: &str, idx: u64, set: &MSet, scratch: &Path, st: &m
 		if exp.classes.values().any(|c| c.methods.values().any(|m| m.params.keys().any(|i| *i >= 10))) {
 			st.outcome("sets with a parameter index >= 10");
 		}
+		if exp.classes.values().any(|c| c.methods.values().any(|m| m.params.keys().any(|i| *i > 65535))) {
+			st.outcome("sets with a parameter index > 65535");
+		}
+		let keyword = |n: &str| n.rsplit(['/', '$']).next().is_some_and(|l| matches!(l, "CLASS" | "FIELD" | "METHOD" | "ARG" | "COMMENT") || l.starts_with("ACC"));
+		let mut all_names: Vec<&str> = Vec::new();
+		for c in exp.classes.values() {
+			all_names.extend(c.names.iter().flatten().map(|s| s.as_str()));
+			for f in c.fields.values() {
+				all_names.extend(f.names.iter().flatten().map(|s| s.as_str()));
+			}
+			for m in c.methods.values() {
+				all_names.extend(m.names.iter().flatten().map(|s| s.as_str()));
+				for p in m.params.values() {
+					all_names.extend(p.names.iter().flatten().map(|s| s.as_str()));
+				}
+			}
+		}
+		if all_names.iter().any(|n| keyword(n)) {
+			st.outcome("sets with a name that is a keyword of the format or starts like its modifier column");
+		}
+		if all_names.iter().any(|n| !n.is_ascii()) {
+			st.outcome("sets with a name outside ASCII");
+		}
+		if all_names.iter().any(|n| n.len() >= 100 && !n.is_ascii()) {
+			st.outcome("sets with a name of 100 bytes or more with a multi-byte character");
+		}
+		if exp.classes.values().any(|c| c.methods.iter().any(|((n, _), m)| n == "<clinit>" && m.names[1].is_some())) {
+			st.outcome("sets with a static initialiser that has a target name");
+		}
 		let mut siblings: BTreeMap<String, u64> = BTreeMap::new();
 		for k in exp.classes.keys() {
 			*siblings.entry(present_parent(exp, k).unwrap_or("").to_owned()).or_default() += 1;
@@ -947,7 +1152,29 @@ fn run_case(ctx: &Ctx, label: &str, idx: u64, set: &MSet, scratch: &Path, st: &m
 			}
 		}
 		st.outcome("real calls");
-		stream_ok &= case.judge_read("stream", &real_read_stream(first), &shown);
+		// (where a constructor is named <init> the set read back is the same only by the statement's proviso: not compared)
+		let same_content = case.expected == *set;
+		let (back, again) = match real_read_stream_rewrite(first, case.colliding_roots.is_empty() && same_content) {
+			Ok((r, again)) => (Ok(r), again),
+			Err(p) => (Err(p), None),
+		};
+		let read_ok = case.judge_read("stream", &back, &shown);
+		stream_ok &= read_ok;
+		// what was read is the same set, so writing it once more gives the same text (deterministic: a function of the set)
+		if let (true, Some(again)) = (read_ok, again) {
+			st.outcome("real calls");
+			match again {
+				Ok(t) if t == *first => st.outcome("stream: read and written again, same bytes"),
+				Ok(t) => {
+					stream_ok = false;
+					case.diff("stream:rewrite-differs", "write_all of what read_into read differs from the text that was read, although the sets are equal", &format!("{shown}\n---- write_all of what was read ----\n{}", String::from_utf8_lossy(&t)));
+				},
+				Err(e) => {
+					stream_ok = false;
+					case.diff("stream:rewrite-refused", &format!("write_all refuses what read_into read from write_all's text: {e}"), &shown);
+				},
+			}
+		}
 		match std::str::from_utf8(first).map_err(|e| e.to_string()).and_then(ref_read) {
 			Ok(entries) => stream_ok &= case.judge_text("stream-text", &entries, &shown),
 			Err(e) => {
@@ -998,7 +1225,7 @@ fn run_case(ctx: &Ctx, label: &str, idx: u64, set: &MSet, scratch: &Path, st: &m
 					case.diff("write_one:refused", &format!("write_one refused the top-level class {root:?} under its file name {fname:?}: {e}"), "");
 				},
 				Ok(Ok(bytes)) => {
-					let sub = Case { ctx, label, idx, set, expected: subtree(exp, root), orphan_members: BTreeMap::new(), colliding_roots: BTreeSet::new(), orphan_name_clash: false };
+					let sub = Case::plain(ctx, label, idx, set, subtree(exp, root));
 					let shown = format!("\n---- write_one({fname:?}) ----\n{}", String::from_utf8_lossy(&bytes));
 					st.outcome("real calls");
 					one_ok &= sub.judge_read("write_one", &real_read_stream(&bytes), &shown);
@@ -1050,6 +1277,12 @@ fn run_case(ctx: &Ctx, label: &str, idx: u64, set: &MSet, scratch: &Path, st: &m
 	}
 
 	// ---- directory ----
+	// (a file system entry of more than NAME_MAX bytes cannot exist: refusing is the environment's answer)
+	let longest = more::longest_file_name_component(exp);
+	let dir_may_refuse = longest > more::NAME_MAX;
+	if longest == more::NAME_MAX {
+		st.outcome("sets with a file name of exactly NAME_MAX bytes");
+	}
 	let mut listings: Vec<BTreeMap<String, Vec<u8>>> = Vec::new();
 	let mut dir_ok = true;
 	for (i, o) in ords.iter().enumerate() {
@@ -1063,7 +1296,9 @@ fn run_case(ctx: &Ctx, label: &str, idx: u64, set: &MSet, scratch: &Path, st: &m
 			},
 			Ok(Err(e)) => {
 				dir_ok = false;
-				if case.colliding_roots.is_empty() {
+				if dir_may_refuse {
+					st.outcome("file name longer than NAME_MAX: directory write refused (accepted)");
+				} else if case.colliding_roots.is_empty() {
 					case.diff("dir:write-refused", &format!("enigma_dir::write refused a set of the domain ({o:?}): {e}"), "");
 				} else {
 					st.outcome("collision: write refused (accepted)");
@@ -1127,11 +1362,44 @@ fn run_case(ctx: &Ctx, label: &str, idx: u64, set: &MSet, scratch: &Path, st: &m
 		if readable {
 			dir_ok &= case.judge_text("dir-text", &entries, &shown);
 		}
+		// other facts of the same length written over the files of another insertion order (same file names, every file
+		// of the same size): what is read back is what was written last
+		if let (Some(variant), true, true) = (same_length_variant(set), case.colliding_roots.is_empty(), listings.len() >= 2) {
+			if !exclusions(&variant).is_empty() {
+				vcore::machinery_fail("harness: the same-length variant of a set of the domain is outside the domain");
+			}
+			let sub = Case::plain(ctx, label, idx, set, normalise(&variant));
+			let d1 = scratch.join("o1");
+			st.outcome("real calls");
+			match real_write_dir(&variant, ords[0], &d1) {
+				Err(p) => {
+					dir_ok = false;
+					case.panic("directory write over existing files of the same size", &p);
+				},
+				Ok(Err(e)) => {
+					dir_ok = false;
+					case.diff("dir-overwrite-same-size:write-refused", &format!("enigma_dir::write refused to write classes of the same names over the files it wrote before: {e}"), &shown);
+				},
+				Ok(Ok(())) => {
+					st.outcome("real calls");
+					let after = list_files(&d1);
+					let sizes = |l: &BTreeMap<String, Vec<u8>>| -> Vec<(String, usize)> { l.iter().map(|(p, b)| (p.clone(), b.len())).collect() };
+					if sizes(&after) != sizes(first) {
+						// (the premise of this part, not a verdict: the variant must keep names and sizes)
+						st.outcome("directory cases written over: sizes differ (premise not met)");
+					} else {
+						st.outcome("directory cases written over with other files of the same size");
+					}
+					let extra = format!("{shown}\n---- the same directory after writing other facts of the same length over it ----\n{}", show(&after));
+					dir_ok &= sub.judge_read("dir-overwrite-same-size", &real_read_dir(&d1), &extra);
+				},
+			}
+		}
 		// the same classes without their comments written over these files (same file names, every file
 		// shorter): what is read back is what was written last
 		if !all_docs.is_empty() && case.colliding_roots.is_empty() {
 			let bare = strip_docs(set);
-			let sub = Case { ctx, label, idx, set, expected: normalise(&bare), orphan_members: BTreeMap::new(), colliding_roots: BTreeSet::new(), orphan_name_clash: false };
+			let sub = Case::plain(ctx, label, idx, set, normalise(&bare));
 			st.outcome("real calls");
 			match real_write_dir(&bare, ords[0], &scratch.join("o0")) {
 				Err(p) => {
@@ -1309,7 +1577,8 @@ fn universes(tier: vcore::Tier) -> Vec<Uni> {
 		class("A", &[None, Some("X")], none, vec![], vec![
 			method("<init>", "()V", &[None, Some("<init>"), Some("make")], small, vec![]),
 			method("<init>", "(I)V", &[None, Some("<init>")], none, vec![param(1, &[(None, Some("p"))], small)]),
-			method("<clinit>", "()V", &[None], small, vec![]),
+			// (only constructors are treated as unnamed: a static initialiser named like itself keeps its name)
+			method("<clinit>", "()V", &[None, Some("<clinit>")], small, vec![]),
 			method("m", "()V", &[None, Some("n")], none, vec![]),
 		]),
 		class("A$B", &[None, Some("X$Y")], none, vec![], vec![method("<init>", "(LA;)V", &[None, Some("<init>")], none, vec![param(1, &[(None, Some("outer"))], none)])]),
@@ -1363,6 +1632,48 @@ fn universes(tier: vcore::Tier) -> Vec<Uni> {
 			]),
 		]);
 	}
+	// parameter indices beyond every width a reader might parse them into (8, 16, 32 bits), the largest a usize holds
+	{
+		let p = |i: usize, n: &str, docs: &[Option<&str>]| param(i, &[(None, Some(n))], docs);
+		add("param-indices-large", vec![
+			class("A", &[Some("X")], none, vec![], vec![
+				method("m", "(I)V", &[None, Some("n")], none, vec![p(0, "a", none), p(255, "b", none), p(256, "c", small), p(65535, "d", none), p(65536, "e", none), p(4294967295, "f", none), p(4294967296, "g", none), p(usize::MAX, "h", small)]),
+			]),
+		]);
+	}
+	// names that are keywords of the format, start like its modifier column (ACC…), or are descriptor tag letters: on every
+	// kind of entry, as source and as target name (the file header of write_all states the target name in a remark)
+	add("keyword-names", vec![
+		class("COMMENT", &[None, Some("CLASS"), Some("ACCESS")], none, vec![
+			field("COMMENT", "LCOMMENT;", &[None, Some("FIELD")], none),
+			field("L", "LL;", &[Some("ACC")], none),
+		], vec![
+			method("ARG", "(LL;[LCOMMENT;)LLL;", &[None, Some("COMMENT"), Some("ACC")], none, vec![param(0, &[(None, Some("COMMENT")), (None, Some("ACC:x"))], none)]),
+		]),
+		class("COMMENT$ARG", &[None, Some("CLASS$METHOD"), Some("CLASS$ACC"), Some("ACCESS$ACCESS"), Some("COMMENT$ACC")], small, vec![], vec![]),
+		class("p/ACC", &[None, Some("ACC"), Some("p/ACCOUNT")], none, vec![], vec![]),
+		class("L", &[None, Some("LL")], none, vec![], vec![]),
+	]);
+	// one name in two roles: the source or target name of a nested class is also the file name of an orphan; an inner
+	// name that is the inner name of its outer class, and of a class in another branch
+	add("name-roles", vec![
+		class("A", &[None, Some("X")], none, vec![], vec![]),
+		class("A$B", &[None, Some("X$Y"), Some("A$Y")], none, vec![], vec![]),
+		class("A$B$B", &[None, Some("X$Y$Y"), Some("A$B$Y")], none, vec![], vec![]),
+		class("A$E", &[None, Some("X$B")], none, vec![], vec![]),
+		class("A$E$B", &[None, Some("X$B$B")], none, vec![], vec![]),
+		class("X$Y", &[None, Some("Q$Y")], none, vec![], vec![]),
+		class("P$Q", &[None, Some("A$B"), Some("X$Y")], none, vec![], vec![]),
+	]);
+	// names the format cannot state or the statement leaves open: no panic
+	add("outside-domain-names", vec![
+		class("A", &[None, Some("X"), Some("ACC:X"), Some("ACC:")], none, vec![], vec![
+			method("n", "()V", &[None, Some("<init>"), Some("<clinit>")], small, vec![]),
+			method("<clinit>", "()V", &[None, Some("<init>")], none, vec![]),
+		]),
+		class("A$B", &[None, Some("X$ACC:Y"), Some("A$ACC:Y"), Some("ACC:X$Y"), Some("X$Y")], none, vec![], vec![]),
+		class("P$Q", &[None, Some("P$ACC:R")], none, vec![], vec![]),
+	]);
 	// every way an entry can end: comments of parameters, methods, fields and classes at indentation 1..5 followed
 	// by a sibling, by an entry of an outer class, by a nested class of an outer class, by the next top-level class
 	{
@@ -1469,6 +1780,26 @@ fn universes(tier: vcore::Tier) -> Vec<Uni> {
 	let mut unis: Vec<Uni> = out.into_iter().map(|(label, u)| Uni { label, src: Source::Product(Space::new(&u)) }).collect();
 	// (the list differs between the tiers, so does the label: a replay file names universe and index)
 	unis.push(Uni { label: format!("chains-and-wide/{}", tier.name()), src: Source::Listed(listed_sets(tier)) });
+	// every text slot with k ASCII letters and a 1/2/3/4-byte character at its first / second / last position
+	unis.push(Uni { label: "slot-texts".into(), src: Source::Listed(more::long_text_sets(0)) });
+	unis.push(Uni { label: "slot-texts/file-name-collision".into(), src: Source::Listed(more::long_text_sets(1)) });
+	unis.push(Uni { label: "slot-texts/parameter-without-name".into(), src: Source::Listed(more::long_text_sets(2)) });
+	unis.push(Uni { label: "file-name-lengths".into(), src: Source::Listed(more::name_length_sets()) });
+	unis.push(Uni { label: format!("package-depths/{}", tier.name()), src: Source::Listed(more::deep_package_sets(tier)) });
+	unis.push(Uni { label: format!("environment-sets/{}", tier.name()), src: Source::Listed(more::environment_sets(tier)) });
+	for u in &unis {
+		if let Source::Listed(v) = &u.src {
+			for (d, set) in v {
+				if let Err(e) = set.check() {
+					vcore::machinery_fail(&format!("listed set {d:?} of {} is malformed: {e}", u.label));
+				}
+				let outside = !exclusions(set).is_empty();
+				if outside != (u.label == "slot-texts/parameter-without-name") {
+					vcore::machinery_fail(&format!("listed set {d:?} of {}: wrong side of the statement's domain: {:?}", u.label, exclusions(set)));
+				}
+			}
+		}
+	}
 	unis
 }
 
@@ -1576,6 +1907,9 @@ fn thread_scratch(base: &Path) -> PathBuf {
 fn main() {
 	let ctx: &'static Ctx = Box::leak(Box::new(Ctx::new("C12", "exploration")));
 	self_check();
+	if let Err(e) = io::self_test() {
+		vcore::machinery_fail(&format!("self-check of the scripted readers and writers: {e}"));
+	}
 	let base = scratch_base();
 	if let Some(path) = ctx.replay.clone() {
 		replay(ctx, &path, &base);
@@ -1592,6 +1926,15 @@ fn main() {
 			st
 		}).reduce(Stats::new, Stats::merge);
 		per_universe.push(json!({"universe": u.label, "sets": n, "in_domain": st.get("in-domain"), "outside_domain": st.get("outside-domain"), "classes": u.describe()}));
+		total = total.merge(st);
+	}
+	// ---- second pass: the environment answers differently, the reader's refusal paths, beyond the reader's bound ----
+	let mut env_tot = env::EnvTotals::default();
+	let mut spaces: Vec<Value> = Vec::new();
+	for space in extra_spaces(ctx.tier) {
+		let (st, tot, n) = run_space(ctx, &space, &unis, &base, None);
+		spaces.push(json!({"space": space, "cases": n, "evaluations": st.evaluations}));
+		env_tot.add(&tot);
 		total = total.merge(st);
 	}
 	let _ = std::fs::remove_dir_all(&base);
@@ -1623,6 +1966,7 @@ fn main() {
 	ctx.floor("sets with a parameter index >= 10", 500, total.get("sets with a parameter index >= 10"));
 	ctx.floor("directory cases with a package directory of depth >= 8", 500, total.get("directory cases with a package directory of depth >= 8"));
 	ctx.floor("directory cases with a file named like a package directory next to it", 500, total.get("directory cases with a file named like a package directory next to it"));
+	ctx.floor("directory cases written over with other files of the same size", 50_000, total.get("directory cases written over with other files of the same size"));
 	ctx.floor("directory cases written over with shorter files", 5_000, total.get("directory cases written over with shorter files"));
 	ctx.floor("stream cases written twice with the same bytes", 5_000, total.get("stream: written twice, same bytes"));
 	ctx.floor("write_one: trees written and read back", 10_000, total.get("write_one: trees written and read back"));
@@ -1632,6 +1976,48 @@ fn main() {
 	ctx.floor("sets on which every write_one check held", 5_000, total.get("write_one: every top-level class gives exactly its tree"));
 	ctx.floor("sets on which every stream check held", 5_000, total.get("stream: round trip, text and order independence hold"));
 	ctx.floor("sets on which every directory check held", 5_000, total.get("directory: round trip, text, one file per top-level class and order independence hold"));
+
+	// second pass
+	ctx.floor("universes, each enumerated completely (second pass: 30)", 30, unis.len() as u64);
+	ctx.floor("stream cases read and written again with the same bytes", 20_000, total.get("stream: read and written again, same bytes"));
+	ctx.floor("sets with a parameter index > 65535", 100, total.get("sets with a parameter index > 65535"));
+	ctx.floor("sets with a name that is a keyword of the format or starts like its modifier column", 1_000, total.get("sets with a name that is a keyword of the format or starts like its modifier column"));
+	ctx.floor("sets with a name outside ASCII", 2_000, total.get("sets with a name outside ASCII"));
+	ctx.floor("sets with a name of 100 bytes or more with a multi-byte character", 500, total.get("sets with a name of 100 bytes or more with a multi-byte character"));
+	ctx.floor("sets with a static initialiser that has a target name", 1_000, total.get("sets with a static initialiser that has a target name"));
+	ctx.floor("sets with a name at the end of its line that ends with Unicode-only white space", 500, total.get("sets with a name at the end of its line that ends with Unicode-only white space"));
+	ctx.floor("sets with a file name of exactly NAME_MAX bytes", 1, total.get("sets with a file name of exactly NAME_MAX bytes"));
+	ctx.floor("sets with a file name longer than NAME_MAX, refused by the file system", 3, total.get("file name longer than NAME_MAX: directory write refused (accepted)"));
+	ctx.floor("slot texts: file-name collisions with long names refused or reported", 2_000, total.get("sets with two top-level classes of equal file name"));
+	ctx.floor("stream-env: read_into through scripted readers", 2_000, total.get("stream-env: reads"));
+	ctx.floor("stream-env: reads with the one boundary inside a multi-byte character", 200, total.get("stream-env: reads with the one boundary inside a multi-byte character"));
+	ctx.floor("stream-env: requests served short", 100_000, env_tot.short_serves);
+	ctx.floor("stream-env: requests answered with Interrupted", 10_000, env_tot.interrupts);
+	ctx.floor("stream-env: write_all / write_one through scripted writers", 1_500, total.get("stream-env: writes"));
+	ctx.floor("stream-env: calls of which fewer bytes were accepted than offered", 10_000, env_tot.short_accepts);
+	ctx.floor("stream-env: writers failing after a prefix", 1_500, total.get("stream-env: failing writer: error reported"));
+	ctx.floor("stream-env: texts larger than 8 KiB", 2, total.get("stream-env: texts larger than 8 KiB"));
+	ctx.floor("stream-env: texts with a multi-byte character across a multiple of 8 KiB", 1, total.get("stream-env: texts with a multi-byte character across a multiple of 8 KiB"));
+	if ctx.tier == vcore::Tier::Thorough {
+		ctx.floor("stream-env: texts larger than 64 KiB", 1, total.get("stream-env: texts larger than 64 KiB"));
+	}
+	ctx.floor("dir-env: target directory that does not exist yet", 300, total.get("dir-env:fresh-path: cases"));
+	if env::dev_full_usable() {
+		ctx.floor("dir-env: files behind which nothing can be stored (/dev/full)", 1_000, total.get("dir-env:no-space-behind-file: cases"));
+	}
+	ctx.floor("dir-env: a directory where the file should be", 1_000, total.get("dir-env:directory-in-the-way: cases"));
+	ctx.floor("dir-env: a file where a package directory should be", 500, total.get("dir-env:file-in-the-way: cases"));
+	ctx.floor("dir-env: directories with files of other kinds read", 300, total.get("dir-env:strangers: read gives the set") + total.get("dir-env:strangers: read gives another set (not stated)") + total.get("dir-env:strangers: read refused (not stated)"));
+	ctx.floor("beyond-bound: chains deeper than the reader's bound", 8, total.get("beyond-bound: read refused (accepted)") + total.get("beyond-bound: round trip holds") + total.get("beyond-bound: write refused (accepted)"));
+	ctx.floor("surrogates: cases with an unpaired surrogate in a name given to the writers", 18, total.get("surrogates: cases"));
+	for class in more::REFUSAL_CLASSES {
+		let refused = total.get(&format!("refusals: {class}: refused"));
+		let read = total.get(&format!("refusals: {class}: read"));
+		ctx.floor(&format!("refusals: texts of the class '{class}' given to read_into"), 2_000, refused + read);
+		if !matches!(class, "nothing to read" | "remark and modifier columns") {
+			ctx.floor(&format!("refusals: texts of the class '{class}' refused (the error path ran)"), 1, refused);
+		}
+	}
 
 	let coverage = json!({
 		"evaluations": total.evaluations,
@@ -1654,11 +2040,30 @@ fn main() {
 			"write_one": "for every top-level class of every in-domain set without file-name collision: called with the class's file name (target name, source name when unnamed) on an object built in the second insertion order; the names of nested classes: no panic only",
 			"deterministic": "write_all is called twice on objects built in the same insertion order: same bytes",
 			"overwrite": "sets with a comment: the same classes without comments are written over the directory; reading gives the comment-less set (same file names, every file shorter)",
+			"overwrite_same_size": "sets with a comment or a target name of a field, method or parameter: the last ASCII letter or digit of each is replaced by its successor and the result written over the directory of the second insertion order (same file names, same sizes); reading gives what was written last",
 			"outside_domain_no_panic_only": [EX_NEST, EX_NEST_OPEN, EX_ROOT_NESTED_TARGET, EX_CTOR, EX_PARAM_SRC, EX_PARAM_UNNAMED, EX_COMMENT_WS],
 			"outside_domain_comments": ODD_COMMENTS,
 			"constructors": "<init> named <init> is compared as <init> without name",
 			"file_name_collisions": "two top-level classes whose target names (source name when unnamed) are equal: refusing to write is accepted, losing a class silently is not",
 			"sorted": "checked as: identical bytes / identical files for every insertion order; no particular sort key is demanded",
+			"rewrite": "every in-domain set without file-name collision: write_all of the object read_into read equals the text that was read",
+			"slot_texts": {"k": format!("0..={}", more::SLOT_K_MAX), "characters": more::SLOT_CHARS.iter().map(|c| format!("U+{:04X} ({} bytes)", *c as u32, c.len_utf8())).collect::<Vec<_>>(), "positions": ["first", "second", "last"], "slots": "package, class, nested class (two levels), field, method, parameter names on both sides, class names inside descriptors, comment lines of class / field / method / parameter", "situations": ["accepting: set of the domain", "refusing: two top-level classes with the same long target name", "refusing: parameter without name"]},
+			"parameter_indices_large": [0, 255, 256, 65535, 65536, 4294967295u64, 4294967296u64, usize::MAX],
+			"file_name_bytes": [64, 128, 200, 253, 254, 255, 256, 257, 300, 1000],
+			"package_depth_listed": ctx.tier.pick("16, 32, 64, 100", "11..=40, 63, 64, 65, 100, 127, 128, 200"),
+			"second_pass_spaces": spaces,
+			"stream_env": {
+				"sets": more::environment_sets(ctx.tier).iter().map(|(d, _)| d.clone()).collect::<Vec<_>>(),
+				"readers": "slice, Cursor<Vec>, at most 1/2/3/5/8/13 bytes per call, BufReader of capacity 1/2/3/4/7/8/16/64, BufReader 1/4/16 over a 3-byte source, Interrupted before every request (then 1 / 4 bytes), no request across a multiple of 2/3/4/5/7/8/16/61 (+ phase 0..3), one boundary at every byte offset (texts up to 3000 bytes; larger: a grid of 257, 4 bytes around every multiple of 4 KiB and inside the next 40 multi-byte characters)",
+				"writers": "Cursor<Vec>, slice of exactly the size, at most 1/2/3/7 bytes accepted per call, Interrupted before every call (then 1 / 5), BufWriter of capacity 1/3/8/64, one boundary at every byte offset (larger texts: grid of 101); failing after every prefix (larger texts and write_one: grid of 61); a slice one byte too small",
+				"requests_served_short": env_tot.short_serves,
+				"requests_answered_interrupted": env_tot.interrupts,
+				"calls_accepted_short": env_tot.short_accepts,
+			},
+			"dir_env": {"sets": "every in-domain set of the universe packages, the environment sets", "situations": ["target directory and its parent do not exist", "every file in turn is a symbolic link to /dev/full", "every file in turn is a directory", "every first package component in turn is a file", "README.md, x.mapping.bak, .mapping, notes.txt in a package, an empty directory empty.mapping next to the files (reading: no panic)", "reading a path that does not exist"], "dev_full_usable": env::dev_full_usable()},
+			"beyond_bound": more::beyond_bound_sets(ctx.tier).iter().map(|(d, _)| d.clone()).collect::<Vec<_>>(),
+			"surrogates": {"slots": env::SURROGATE_SLOTS, "code_points": ["U+D800", "U+DFFF"], "judged": "no panic (the text cannot state such names)"},
+			"refusals": {"slot_texts": more::refusal_slots().len(), "texts_per_slot": more::refusal_texts("x").len() + more::tolerated_texts("x").len(), "classes": more::REFUSAL_CLASSES},
 		},
 	});
 	ctx.finish(coverage, &[
@@ -1668,7 +2073,105 @@ fn main() {
 		"the file system is case sensitive (tmpfs); class names differing only in case are not generated",
 		"the reference reader in this file is the independent reading of the Enigma text (self-checked against a hand-written sample at start)",
 		"insertion orders explored: sorted, reversed, rotated by one on every level (thorough: also rotated by two, and two mixtures where classes and members are inserted in different orders)",
+		"Read and Write are used as std documents them: a request may be served / accepted in part, Interrupted asks for a retry; the scripted readers and writers (c20/io.rs) are self-tested at start",
+		"a file system entry has at most 255 bytes (NAME_MAX): a top-level class whose file name is longer may be refused by enigma_dir::write; its single-stream round trip is still demanded",
+		"/dev/full is a device that accepts no byte (checked at start; without it the no-space situation is skipped and said so in bounds.dir_env)",
+		"names with an unpaired surrogate cannot be stated in UTF-8 text: explored for no panic only (built directly as quill objects)",
 	]);
+}
+
+// ---------------------------------------------------------------------------------------------
+// second pass: spaces that are not mapping-set universes
+
+fn extra_spaces(tier: vcore::Tier) -> Vec<String> {
+	vec![format!("stream-env/{}", tier.name()), format!("dir-env-listed/{}", tier.name()), "dir-env-packages".to_owned(), format!("beyond-bound/{}", tier.name()), "refusals".to_owned(), "surrogates".to_owned()]
+}
+
+/// runs one space (or, for a replay, its case `only`): statistics, I/O totals, number of cases
+fn run_space(ctx: &'static Ctx, space: &str, unis: &[Uni], base: &Path, only: Option<u64>) -> (Stats, env::EnvTotals, u64) {
+	let (kind, tier) = match space.split_once('/') {
+		Some((k, "quick")) => (k, vcore::Tier::Quick),
+		Some((k, "thorough")) => (k, vcore::Tier::Thorough),
+		_ => (space, ctx.tier),
+	};
+	let pick = |n: u64| -> Vec<u64> {
+		match only {
+			Some(i) if i < n => vec![i],
+			Some(_) => vcore::machinery_fail("case outside the space"),
+			None => (0..n).collect(),
+		}
+	};
+	type Acc = (Stats, env::EnvTotals);
+	let new = || -> Acc { (Stats::new(), env::EnvTotals::default()) };
+	let merge = |a: Acc, b: Acc| -> Acc {
+		let mut t = a.1;
+		t.add(&b.1);
+		(a.0.merge(b.0), t)
+	};
+	let desc = |i: u64| format!("space={space}\ncase={i}\n");
+	let (n, (st, tot)) = match kind {
+		"stream-env" => {
+			let sets = more::environment_sets(tier);
+			let n = sets.len() as u64;
+			(n, pick(n).into_par_iter().fold(new, |mut acc, i| {
+				let (label, set) = &sets[i as usize];
+				vcore::watched(|| desc(i), || env::stream_env_case(ctx, space, i, label, set, &mut acc.0, &mut acc.1));
+				acc
+			}).reduce(new, merge))
+		},
+		"dir-env-listed" => {
+			let sets = more::environment_sets(tier);
+			let n = sets.len() as u64;
+			(n, pick(n).into_par_iter().fold(new, |mut acc, i| {
+				let (label, set) = &sets[i as usize];
+				let scratch = thread_scratch(base);
+				vcore::watched(|| desc(i), || env::dir_env_case(ctx, space, i, label, set, &scratch, &mut acc.0));
+				acc
+			}).reduce(new, merge))
+		},
+		"dir-env-packages" => {
+			let u = unis.iter().find(|u| u.label == "packages").unwrap_or_else(|| vcore::machinery_fail("no universe packages"));
+			let n = u.len();
+			(n, pick(n).into_par_iter().fold(new, |mut acc, i| {
+				let set = u.nth(i);
+				if exclusions(&set).is_empty() {
+					let scratch = thread_scratch(base);
+					vcore::watched(|| desc(i), || env::dir_env_case(ctx, space, i, "universe packages", &set, &scratch, &mut acc.0));
+				}
+				acc
+			}).reduce(new, merge))
+		},
+		"beyond-bound" => {
+			let sets = more::beyond_bound_sets(tier);
+			let n = sets.len() as u64;
+			(n, pick(n).into_par_iter().fold(new, |mut acc, i| {
+				let (label, set) = &sets[i as usize];
+				let scratch = thread_scratch(base);
+				vcore::watched(|| desc(i), || env::beyond_case(ctx, space, i, label, set, &scratch, &mut acc.0));
+				acc
+			}).reduce(new, merge))
+		},
+		"refusals" => {
+			let slots = more::refusal_slots();
+			let n = slots.len() as u64;
+			(n, pick(n).into_par_iter().fold(new, |mut acc, i| {
+				let (label, slot) = &slots[i as usize];
+				vcore::watched(|| desc(i), || env::refusal_case(ctx, space, i, label, slot, &mut acc.0));
+				acc
+			}).reduce(new, merge))
+		},
+		"surrogates" => {
+			let n = 2 * env::SURROGATE_SLOTS.len() as u64;
+			(n, pick(n).into_par_iter().fold(new, |mut acc, i| {
+				let scratch = thread_scratch(base);
+				// (case i: slot i / 2, the high surrogate U+D800 for even i, the low surrogate U+DFFF for odd i)
+				vcore::watched(|| desc(i), || env::surrogate_case(ctx, space, i, &scratch, &mut acc.0));
+				acc
+			}).reduce(new, merge))
+		},
+		_ => vcore::machinery_fail(&format!("unknown space {space:?}")),
+	};
+	(st, tot, n)
 }
 
 fn replay(ctx: &'static Ctx, path: &Path, base: &Path) -> ! {
@@ -1676,6 +2179,14 @@ fn replay(ctx: &'static Ctx, path: &Path, base: &Path) -> ! {
 	let get = |name: &str| -> String {
 		body.lines().find_map(|l| l.strip_prefix(name)).unwrap_or_else(|| vcore::machinery_fail(&format!("replay file has no {name} line"))).trim().to_owned()
 	};
+	if body.lines().any(|l| l.starts_with("space=")) {
+		let space = get("space=");
+		let case: u64 = get("case=").parse().unwrap_or_else(|_| vcore::machinery_fail("bad case"));
+		let unis = universes(vcore::Tier::Quick);
+		let (st, _, _) = run_space(ctx, &space, &unis, base, Some(case));
+		let _ = std::fs::remove_dir_all(base);
+		ctx.finish(json!({"evaluations": st.evaluations, "distinct_nontrivial": 1, "rule": "replay of one case of a second-pass space", "samples": ["replay"], "outcomes": st.outcomes}), &[]);
+	}
 	let label = get("universe=");
 	let idx: u64 = get("index=").parse().unwrap_or_else(|_| vcore::machinery_fail("bad index"));
 	let u = [vcore::Tier::Quick, vcore::Tier::Thorough].into_iter().flat_map(universes).find(|u| u.label == label).unwrap_or_else(|| vcore::machinery_fail("unknown universe"));
